@@ -49,6 +49,10 @@ def contexts():
             ("other_shell_only", [("seq", [L("first"), R("X"), L("last")])], [("X", "fish", P(3, "p8"))]),
             ("nested_def", [("seq", [R("A"), L("last")])], [("A", "", ("alt", [R("B"), L("lit")])), ("B", "", ("seq", [L("b"), p]))]),
             ("two_variants", [("seq", [L("one"), p]), ("seq", [L("two"), q])], []),
+            ("specdef_fb", [("seq", [("fb", [R("X"), L("--help")]), L("last")])], [("X", "", q), ("X", "bash", p)]),
+            ("spec_only_fb", [("seq", [("fb", [L("--all"), R("X")]), L("last")])], [("X", "bash", p)]),
+            ("word_fb_cmds", [("seq", [("sub", [L("--opt="), ("fb", [p, q])]), L("last")])], []),
+            ("word_cmd_then_top_fb", [("seq", [("fb", [L("lit"), ("sub", [L("--o="), ("fb", [q, p])])]), L("last")])], []),
         ]
     return out
 
